@@ -118,7 +118,7 @@ def oracle(ctx, obs):
             ctx.violation("S5", f"counts_coincidences is not invariant under the signal/idler exchange: {cc!r} Hz vs {ccs!r} Hz for the exchanged "
                           f"setup on the transposed grid (ratio {ccs / cc:.6f}"
                           + (f" = ratio of get_counts_correction, which uses the signal's group index only" if expl else "") + ")",
-                          {"kind": "rate_exchange", "quantity": "counts_coincidences"},
+                          {"kind": "rate_exchange", "quantity": "counts_coincidences", "explained_by_counts_correction": expl},
                           {"setup": st, "counts_coincidences": cc, "exchanged": ccs, "get_counts_correction": g("corr"),
                            "get_counts_correction_exchanged": g("corr_sw"), "explained_by_correction_factor": expl,
                            "call": "spdc.counts_coincidences(range, Integrator::default()) vs "
@@ -128,14 +128,15 @@ def oracle(ctx, obs):
             expl = abs(sss / si - ratio_corr) < 1e-9 if si else False
             ctx.violation("S5", f"counts_singles_idler of a setup ({si!r} Hz) is not counts_singles_signal of the exchanged setup ({sss!r} Hz; ratio "
                           f"{sss / si:.6f}" + (" = ratio of get_counts_correction" if expl else "") + ")",
-                          {"kind": "rate_exchange", "quantity": "counts_singles_idler"},
+                          {"kind": "rate_exchange", "quantity": "counts_singles_idler", "explained_by_counts_correction": expl},
                           {"setup": st, "counts_singles_idler": si, "exchanged_counts_singles_signal": sss,
                            "explained_by_correction_factor": expl})
         ss, sis = g("ss"), g("si_sw")
         if abs(ss - sis) > TOL * max(abs(ss), abs(sis)):
             expl = abs(sis / ss - ratio_corr) < 1e-9 if ss else False
-            ctx.violation("S5", f"counts_singles_signal of a setup ({ss!r} Hz) is not counts_singles_idler of the exchanged setup ({sis!r} Hz)",
-                          {"kind": "rate_exchange", "quantity": "counts_singles_signal"},
+            ctx.violation("S5", f"counts_singles_signal of a setup ({ss!r} Hz) is not counts_singles_idler of the exchanged setup ({sis!r} Hz; ratio "
+                          f"{sis / ss:.6f}" + (" = ratio of get_counts_correction" if expl else "") + ")",
+                          {"kind": "rate_exchange", "quantity": "counts_singles_signal", "explained_by_counts_correction": expl},
                           {"setup": st, "counts_singles_signal": ss, "exchanged_counts_singles_idler": sis,
                            "explained_by_correction_factor": expl})
     return pts
@@ -214,12 +215,12 @@ def run(ctx):
         correspondence(ctx, pts, 8 if quick else 32, 2 if quick else 3)
     else:
         ctx.note("correspondence cases skipped: generated model did not compile")
-    if (not proved or ctx.case_failures) and not any(v["found_input"] and v["sig"].get("kind") != "rate_exchange" for v in ctx.violations):
+    if (not proved or ctx.case_failures) and not any(v["found_input"] and not v["sig"].get("explained_by_counts_correction") for v in ctx.violations):
         ctx.log("S5 deep search for a failing input (proof obligations / correspondence are broken)")
         for k in range(2 if quick else 6):
             obs2 = run_harness(ctx, binp, ["c06", ctx.seed + 1000 + k, 60, 6], timeout=1500)
             oracle(ctx, obs2)
-            if any(v["found_input"] and v["sig"].get("kind") != "rate_exchange" for v in ctx.violations):
+            if any(v["found_input"] and not v["sig"].get("explained_by_counts_correction") for v in ctx.violations):
                 break
     ctx.cov["rule"] = ("random setups: crystal/type from 13 (poled: 7, angle-tuned: 6) classes, L 0.5-20 mm log-uniform, pump 380-800 nm, signal "
                        "non-degenerate by up to 25 % (1/8 exactly degenerate), external signal angle 0.2-4 deg at random azimuth (1/6 collinear), "
